@@ -61,7 +61,7 @@ def network_simplex(
     source = [0] * (m + n)
     target = [0] * (m + n)
     cap = [0] * (m + n)
-    cost = [0.0] * (m + n)
+    cost = [0] * (m + n)
     flow = [0] * (m + n)
 
     for i, (u, v, c, w) in enumerate(arcs):
@@ -106,7 +106,7 @@ def network_simplex(
     rev_thread[root] = n - 1
 
     # pi[i] = node potential (dual variable); reduced cost = cost - pi[src] + pi[tgt]
-    pi = [0.0] * total_nodes
+    pi = [0] * total_nodes
     for i in range(n):
         arc = pred[i]
         if source[arc] == i:
